@@ -1,0 +1,22 @@
+//go:build verif
+
+package stream
+
+// Machine-checked contracts for /verif (govc). Comment-only, compiled only
+// with -tags verif; changes no behaviour.
+
+// ---- frame contracts used by callers in package agent (C07) ----
+// These three methods change no heap state (channel operations and atomics
+// only); callers rely on that to keep their own buffers across the call.
+
+//@ func (*Stream).CanWrite
+//@ prop C07
+//@ note no modifies clause: proved to change nothing
+
+//@ func (*Stream).GetSessionKey
+//@ prop C07
+//@ ensures result == s.sessionKey
+
+//@ func (*Stream).Read
+//@ prop C07
+//@ note no modifies clause: proved to change nothing (receives from channels only)
